@@ -217,6 +217,13 @@ fn main() {
 		if trace_on { eprintln!("=== scenario {} seed {} t={} async={} points={}", sc, seed, t, async_t, pts.len()); for (k, p) in pts.iter().enumerate() { eprintln!("  pt{} {} {:?}", k, p.op, p.views); } }
 		if std::env::var("VERIF_TRACE").map(|v| v == "3").unwrap_or(false) { let mut pi = 0; for (k, o) in net.trace.iter().enumerate() { while pi < pts.len() && pts[pi].trace_len <= k { eprintln!("   -- pt{} {}", pi, pts[pi].op); pi += 1; } if !matches!(o, Obs::Balance { .. }) { eprintln!("      {}", fmt_obs(o)); } } }
 		let my = chans_of(&net, t);
+		// points of the reference run at which a preimage-only update was handed to chain::Watch under an id the channel had
+		// already generated (it jumped ahead of blocked updates, whose ids were bumped)
+		let mut jumps: Vec<Vec<usize>> = vec![vec![]; my.len()];
+		for (k, (ci, _, _)) in my.iter().enumerate() { for pi in 1..pts.len() { if let Some(cprev) = pts[pi - 1].views[k].chan {
+			for o in &net.trace[pts[pi - 1].trace_len..pts[pi].trace_len] { if let Obs::Update { node, chan, id, kinds, .. } = o { if *node == t && chan == ci && *id <= cprev[0] && *id > cprev[1] && cprev[5] > 0
+				&& !kinds.iter().any(|s| s.starts_with("HolderCommitment") || s.starts_with("CounterpartyCommitment") || *s == "CommitmentSecret") { jumps[k].push(pi); } } }
+		} } }
 		track_run(&mut rec, sc, t, &net, &pts, &my);
 		std::mem::forget(net);
 		// ---- enumerate crash worlds -----------------------------------------------------------------
@@ -298,10 +305,10 @@ fn main() {
 				Seen::Ok(v) => v.clone(),
 			};
 			if has_replay { n_replay += 1; }
-			// KF-C10-3 pattern: the manager copy holds blocked updates, the monitor copy is at (or past) the manager's latest id, the
-			// channel is resumed (every blocked update dropped as completed) — yet the monitor's numbers are above the channel's:
-			// the update the monitor has under that id is not the one the manager blocked (ids were renumbered by a jumping preimage update)
-			let kf3 = (0..my.len()).any(|k| { let c = qv[k].chan.unwrap(); c[5] > 0 && !chans[k].0 && mv[k].mon_id >= c[0] && (mv[k].mon[0] > c[2] || mv[k].mon[1] > c[3] || mv[k].mon[2] > c[4]) });
+			// KF-C10-3 pattern: the manager copy holds blocked updates, the channel is resumed with a monitor copy past the manager's
+			// released id (so blocked updates are dropped as completed), and between the manager write and that monitor copy a
+			// preimage update jumped ahead of the blocked ones (their ids were bumped): same id, different content
+			let kf3 = (0..my.len()).any(|k| { let c = qv[k].chan.unwrap(); c[5] > 0 && !chans[k].0 && mv[k].mon_id > c[1] && jumps[k].iter().any(|j| w.q < *j && *j <= w.mon_pts[k]) });
 			let kf3_text = "KF-C10-3 blocked monitor update dropped although the monitor never received it: a preimage update took the blocked update's id after the manager was written (ids of blocked updates are renumbered), so manager and monitor agree on the id but not on the content; on_startup_drop_completed_blocked_mon_updates_through discards the held revoke_and_ack update and the monitor permanently misses that revocation secret / counterparty commitment";
 			let mut any_closed = false;
 			for k in 0..my.len() {
@@ -315,6 +322,7 @@ fn main() {
 			if any_closed { n_closed += 1; }
 			// second crash during recovery
 			let mut mon2_ids: Option<Vec<u64>> = None;
+			let mut closed2: Vec<bool> = vec![false; my.len()];
 			if (w.p + w.q) % 2 == 0 {
 				n_second += 1;
 				let same_mons = (w.p + w.q) % 4 == 0;
@@ -325,6 +333,9 @@ fn main() {
 					Seen::Err(e) => { rec.oracle_fail(format!("{}: SECOND restart ({}) failed: {}", tag, if same_mons { "same monitors" } else { "monitors after replay" }, e.chars().take(160).collect::<String>())); std::mem::forget(net); continue; },
 					Seen::Ok(v2) => {
 						for k in 0..my.len() {
+							// fresh updates generated during the first recovery and persisted make the (unchanged) manager older than its monitor
+							let newer = mon2_ids.as_ref().map(|m| m[k] > qv[k].chan.unwrap()[0]).unwrap_or(false);
+							if newer && v2[k].0 && !chans[k].0 { closed2[k] = true; continue; }
 							if v2[k].0 != chans[k].0 { rec.oracle_fail(format!("{}: second restart ({}) closed={} but first closed={} for channel {}", tag, if same_mons { "same monitors" } else { "monitors after replay" }, v2[k].0, chans[k].0, my[k].0)); }
 							if same_mons && v2[k] != chans[k] { rec.oracle_fail(format!("{}: second restart from identical bytes differs: {:?} vs {:?}", tag, v2[k], chans[k])); }
 							if !same_mons && !v2[k].0 && !v2[k].1.is_empty() { rec.oracle_fail(format!("{}: second restart after the replayed updates were persisted replays again: {:?}", tag, v2[k].1)); }
@@ -332,6 +343,8 @@ fn main() {
 					},
 				}
 			}
+			let chans: Vec<(bool, Vec<u64>, Option<u64>)> = chans.iter().enumerate().map(|(k, c)| (c.0 || closed2[k], c.1.clone(), c.2)).collect();
+			let any_closed = any_closed || closed2.iter().any(|x| *x);
 			// continue to settlement
 			let fin = guarded(AssertUnwindSafe(|| {
 				for (_, peer, _) in chans_of(&net, t) { net.reconnect(t, peer); }
